@@ -62,6 +62,14 @@ POOL = {
     3: [tup(b"a", b"b", b"c"), tup(b"a\xff", b"", b"b"), tup(b"a", b"\xff", b"b"), tup(b"a", b"", b"\xffb"), tup(b"", b"", b""),
         tup(b"ab", b"", b"c")],
 }
+# tuples that differ in EXACTLY ONE component (each component in turn), long values, multi-byte UTF-8
+LONG = b"GigabitEthernet0/0/0.4094-subscriber-group-residential"
+POOL[1] += [tup(LONG), tup(LONG[:-1] + b"X"), tup("\u00e9".encode()), tup(b"e")]
+POOL[2] += [tup(b"k", b"v1"), tup(b"k", b"v2"), tup(b"k1", b"v"), tup(b"k2", b"v"), tup(LONG, b"red"), tup(LONG, b"rec"),
+            tup(b"red", LONG), tup(b"rec", LONG)]
+POOL[3] += [tup(b"p", b"q", b"r"), tup(b"p2", b"q", b"r"), tup(b"p", b"q2", b"r"), tup(b"p", b"q", b"r2"),
+            tup(LONG, b"q", b"r"), tup(b"p", LONG, b"r"), tup(b"p", b"q", LONG)]
+ONEDIFF2 = [tup(b"k", b"v1"), tup(b"k", b"v2"), tup(b"k1", b"v"), tup(b"k2", b"v")]
 CDELTAS = [0, 1, 1, "01", 2, 5, 7, 1 << 53, (1 << 53) - 1, 1 << 63, T64 - 1, 1000]     # "1" = Inc(), "01" = Add(1)
 GDELTAS = [-5, -1, -1, "-01", 0, 1, 1, "01", 2, 3, 10, 1 << 40, -(1 << 40)]   # 1 = Inc, -1 = Dec, -n = Sub(n), 01/-01 = Add
 HVALS = [-1, 0, 1, 2, 5, 6, 10, 11, 100]
@@ -145,6 +153,8 @@ SCENARIOS = [
     ("colliding-tuples-last-slot", "h", 1, 2, "-", ["r:%s/e:0:1" % X1, "r:%s/e:0:1" % X2, "a:%s:1" % X2]),
     ("gauge-set-by-tuple", "g", 2, 1, "r:%s" % A, ["A:%s:7" % A, "e:0:1", "A:%s:9/a:%s:2" % (A, A)]),
     ("gauge-inc-dec-sub-at-cap-and-stale", "g", 1, 1, "r:%s" % A, ["e:0:1/e:0:-1", "u:%s" % A, "r:%s/e:1:-1/e:1:-3" % B]),
+    ("differ-in-last-component-only", "c", 2, 2, "-", ["r:%s/e:0:1" % ONEDIFF2[0], "r:%s/e:0:2" % ONEDIFF2[1], "a:%s:4" % ONEDIFF2[0]]),
+    ("differ-in-first-component-only", "h", 2, 2, "-", ["r:%s/e:0:1" % ONEDIFF2[2], "r:%s/e:0:3" % ONEDIFF2[3], "a:%s:7" % ONEDIFF2[3]]),
     ("unbounded-creators", "c", -1, 1, "-", ["r:%s/e:0:1" % A, "r:%s/e:0:1" % B, "r:%s/e:0:1" % A]),
 ]
 
